@@ -395,6 +395,11 @@ impl Scenario for Throttle {
         // which is always served; what C18 promises about a close in that state is not clear)
         v.push(json!({"bound": 16, "high": 100000, "low": 0, "stall": 260, "grants": [33], "close_behind": true}));
         v.push(json!({"bound": 1, "high": 100000, "low": 0, "stall": 330, "grants": [33], "close_behind": true}));
+        v.push(json!({"bound": 16, "high": 128, "low": 0, "stall": 260, "grants": [33], "close_behind": true}));
+        // ... and the close meets channels that are being held back: the second publisher hands
+        // its messages over while the first one's are stuck above the high-water mark, and the
+        // connection is closed straight away
+        v.push(json!({"bound": 16, "high": 128, "low": 0, "stall": 260, "grants": [33], "close_behind": true, "late_p2": true}));
         // fine mode: publishers may refill their queues while the I/O thread is draining them
         v.push(json!({"bound": 1, "high": 64, "low": 0, "stall": 260, "grants": [33], "fine": true}));
         // ... with the high-water mark out of reach: no throttle cycle re-registers the queues, a
@@ -449,6 +454,7 @@ impl Scenario for Throttle {
         if pileup.is_some() {
             cfg.no_grants = true;
         }
+        let late_p2 = p["late_p2"] == true;
         let close_behind = p["close_behind"] == true;
         if close_behind {
             // the peer trickles: 33 bytes at a time, to the end
@@ -533,6 +539,9 @@ impl Scenario for Throttle {
                         }
                     };
                     actors.push(ctx.spawn(&format!("p{}", chan), move |ctx| {
+                        if late_p2 && chan == 2 {
+                            ctx.wait_io_quiet();
+                        }
                         for i in 0..3u8 {
                             let body = vec![chan as u8 * 16 + i; body_len];
                             let r = ch.basic_publish("ex", Publish::new(&body, "k"));
@@ -570,6 +579,14 @@ impl Scenario for Throttle {
                         ctx.log(format!("reclose1 -> {}", res(&r)));
                     }
                 }
+                if late_p2 {
+                    for a in actors {
+                        ctx.join(a);
+                    }
+                    let r = conn.close();
+                    ctx.log(format!("close -> {}", res(&r)));
+                    return;
+                }
                 // a channel opened and closed while the others are (possibly) throttled
                 let c3 = conn.open_channel(Some(3));
                 ctx.log(format!("open3 -> {}", res(&c3)));
@@ -605,14 +622,25 @@ impl Scenario for Throttle {
         {
             use amiquip::verif::ChanKind;
             use vh::sim::world::IoEvent;
+            // (One exception: the wake-up in which the connection's close request is taken. What
+            // the channels had handed over before may be fetched then, ahead of the Close - the
+            // buffer bound above covers it.)
             let mut above = false;
-            for e in &o.io_events {
+            let mut pending: Option<u16> = None;
+            for e in o.io_events.iter().chain(std::iter::once(&IoEvent::Gate { outbuf_len: 0, sealed: false, n_slots: 0 })) {
                 match e {
-                    IoEvent::Gate { outbuf_len, .. } => above = *outbuf_len > high,
-                    IoEvent::Recv { channel_id, kind: ChanKind::Main, .. } if *channel_id != 0 && above => {
-                        v.push(("throttle:served-above-high-water".into(), format!("the I/O thread took a message from channel {} in a wake-up that started with more than the high-water mark ({}) buffered", channel_id, high)));
-                        break;
+                    IoEvent::Gate { outbuf_len, .. } => {
+                        if let Some(channel_id) = pending {
+                            v.push(("throttle:served-above-high-water".into(), format!("the I/O thread took a message from channel {} in a wake-up that started with more than the high-water mark ({}) buffered", channel_id, high)));
+                            break;
+                        }
+                        above = *outbuf_len > high;
                     }
+                    IoEvent::Recv { msg: amiquip::verif::MsgKind::ConnectionClose { .. }, .. } => {
+                        pending = None;
+                        above = false;
+                    }
+                    IoEvent::Recv { channel_id, kind: ChanKind::Main, .. } if *channel_id != 0 && above && pending.is_none() => pending = Some(*channel_id),
                     _ => {}
                 }
             }
@@ -679,6 +707,9 @@ impl Scenario for Throttle {
         let mut want_main = vec!["open3 -> Ok", "qos3 -> Ok", "close3 -> Ok", "close -> Ok"];
         if p["pileup"].is_array() {
             want_main[0] = "bind3 -> Ok";
+        }
+        if p["late_p2"] == true {
+            want_main = vec!["close -> Ok"];
         }
         if p["srvclose"] == true {
             want_main.splice(0..0, ["reopen1 (server close pushed true) -> Ok(1)", "reqos1 -> Ok", "reclose1 -> Ok"]);
